@@ -349,6 +349,32 @@ def r4(ctx):
                 "that are empty w.r.t. the fiber's own default "
                 "(`not Payload.isEmpty(payload, default=self.getDefault())`)",
                 text_="iterRange emptiness")
+    # the bounds tested are the caller's: `start` / `end` are not rebound
+    # (unboxing through Payload.get keeps the value)
+    for bound in ("start", "end"):
+        reb = []
+        for n in f.own_nodes():
+            tgs = []
+            if isinstance(n, ast.Assign):
+                tgs = [x for t in n.targets for x in ast.walk(t)]
+            elif isinstance(n, (ast.AugAssign, ast.AnnAssign)):
+                tgs = list(ast.walk(n.target))
+            elif isinstance(n, (ast.For, ast.comprehension)):
+                tgs = list(ast.walk(n.target))
+            if any(isinstance(x, ast.Name) and x.id == bound for x in tgs):
+                v = getattr(n, "value", None)
+                if not (isinstance(n, ast.Assign) and v is not None and
+                        text(v).replace(" ", "") == "Payload.get(%s)" % bound):
+                    reb.append(n)
+        if reb:
+            ctx.bad("C07.R4", f, reb[0], "iterRange rebinds its `%s` bound (`%s`): "
+                    "the range that is clipped to is no longer the one the "
+                    "caller named (e.g. a saved-position shortcut that drops "
+                    "the lower bound lets earlier coordinates out)"
+                    % (bound, text(reb[0])[:60]), text_="iterRange %s rebound" % bound)
+        else:
+            ctx.ok("C07.R4", f, f.node, "`%s` is the caller's bound on every path"
+                   % bound, text_="iterRange %s rebound" % bound)
     # loop exit: break when coord >= end
     brk = None
     for n in f.own_nodes():
